@@ -670,7 +670,7 @@ func runKWP(w *vt.Writer, full bool) {
 		{
 			// byte strings of every length 0..40 and around the upper limit
 			for n := 0; n <= 8216; n++ {
-				if n <= 41 || n >= 8190 || full && n%8 != 0 && n%(8*13) < 8 || !full && n%8 != 0 && r.Intn(200) == 0 {
+				if n <= 41 || n >= 8190 || full && n%8 != 0 && kl == 16 || !full && n%8 != 0 && r.Intn(200) == 0 {
 					c.unwrap("garbage", vt.Bytes(r, n), false)
 					if n <= 41 || n >= 8190 {
 						c.unwrap("garbage0", make([]byte, n), false)
